@@ -30,6 +30,25 @@ class PathSummary:
         return {"literals": sorted(repr(l) for l in self.lits), "opaque": sorted(f"{'' if p else 'not '}{t}" for t, p in self.opaque), "writes": {k: repr(v) for k, v in self.state.vals.items()}, "returns": norm(self.ret) if self.ret is not None else None, "kind": self.kind}
 
 
+def inline_simple_locals(e, fi):
+    """replace single-assignment locals that merely name a subscript / attribute / method-call-free expression
+    (`a_val = a[key]`, `stripped = line.strip()`) by that expression, so that opaque literals are spelled the same
+    whether or not the code uses such temporaries"""
+    if fi is None:
+        return e
+    from .trace import resolve
+
+    class R(ast.NodeTransformer):
+        def visit_Name(self, n):
+            if isinstance(n.ctx, ast.Load) and n.id not in fi.params:
+                v = resolve(n, fi)
+                if v is not n and isinstance(v, (ast.Subscript, ast.Attribute)) or (v is not n and isinstance(v, ast.Call) and isinstance(v.func, ast.Attribute) and v.func.attr in ("strip", "lower", "upper") and not v.args):
+                    return ast.parse(ast.unparse(v), mode="eval").body
+            return n
+
+    return R().visit(ast.parse(ast.unparse(e), mode="eval").body)
+
+
 def _expand_test(e, pol, fi, env, ps, state, data_eq=None):
     """add the literal(s) of test e taken with polarity pol to ps"""
     if isinstance(e, ast.Constant):
@@ -75,7 +94,7 @@ def _expand_test(e, pol, fi, env, ps, state, data_eq=None):
             pass
         finally:
             env.state = old
-    ps.opaque.add((norm(e), pol))
+    ps.opaque.add((norm(inline_simple_locals(e, fi if fi is not None else getattr(env, "fi", None))), pol))
 
 
 def summarize(fi=None, body=None, env=None, data_eq=None, field_roots=(), limit=400, init_state=None):
